@@ -384,7 +384,7 @@ func compareOutcome(d Desc, t0 time.Time, what, refErr, gotErr string, pairs [][
 				}
 			}
 			return mon.Result{Verdict: mon.Violated, Key: key + suffix, NonTrivial: true,
-				Detail: more[len(more):] + fmt.Sprintf("%s %s rs=%d seed=%d: %s differ between the ideal pipe and the real transport at rendered offset %d:\n ideal: …%s…\n real:  …%s…",
+				Detail: fmt.Sprintf("%s %s rs=%d seed=%d: %s differ between the ideal pipe and the real transport at rendered offset %d:\n ideal: …%s…\n real:  …%s…",
 					d.T, d.Version, d.ReadSize, d.Seed, names[i], j, clip(a), clip(b)) + more}
 		}
 	}
